@@ -19,6 +19,9 @@ REPO = os.environ.get('SISMIC_REPO', '/repo')
 
 
 def lit(v):
+    # (values are Python expressions, not only literals: some integers are written as sums)
+    if isinstance(v, int) and not isinstance(v, bool) and v % 3 == 2:
+        return '%d+1' % (v - 1)
     return repr(v)
 
 
